@@ -70,21 +70,22 @@ func (c *c16Conn) SetReadDeadline(t time.Time) error  { return nil }
 func (c *c16Conn) SetWriteDeadline(t time.Time) error { return nil }
 
 type c16Snap struct {
-	thread   string
-	f        *cptvframe.Frame
-	err      error
-	conn     int // connection generation at request begin
+	thread      string
+	f           *cptvframe.Frame
+	err         error
+	conn        int // connection generation at request begin
 	doneAtBegin int // frames whose processing had completed on that connection when the request began
 	servedAtEnd int
 	genAtEnd    int
+	atReturn    [][]uint16 // pixel content when the request returned
 }
 
 type c16Obs struct {
-	snaps     []c16Snap
-	connErrs  []error
-	gen       int
-	conns     []*c16Conn
-	infoCalls int
+	snaps      []c16Snap
+	connErrs   []error
+	gen        int
+	conns      []*c16Conn
+	infoCalls  int
 	framesSeen []uint32
 }
 
@@ -179,6 +180,11 @@ func c16Body(c c16Case, env *c16Env, obs *c16Obs) func() {
 						sn := c16Snap{thread: name, conn: obs.gen, doneAtBegin: cn.served - 1}
 						sn.f, sn.err = newSnapshot(-1)
 						sn.servedAtEnd, sn.genAtEnd = obs.conns[obs.gen].served, obs.gen
+						if sn.f != nil {
+							for _, row := range sn.f.Pix {
+								sn.atReturn = append(sn.atReturn, append([]uint16{}, row...))
+							}
+						}
 						obs.snaps = append(obs.snaps, sn)
 					}
 				})
@@ -244,6 +250,10 @@ func c16Check(c c16Case, env *c16Env, e *vsched.Exec, obs *c16Obs) (out []ev.Vio
 	// snapshots are whole and fresh
 	for _, sn := range obs.snaps {
 		if sn.f == nil {
+			continue
+		}
+		if fmt.Sprint(sn.atReturn) != fmt.Sprint(sn.f.Pix) {
+			add("C16:snapshot-not-an-independent-copy", fmt.Sprintf("%s: the returned frame changed after the request returned (%v -> %v): it shares a buffer with the frame loop", sn.thread, sn.atReturn, sn.f.Pix))
 			continue
 		}
 		v := sn.f.Pix[0][0]
